@@ -411,6 +411,20 @@ def check(run):
                 run.known(key, "%s %s dialect=%s limit=%s -> %s" % (kind, t["id"], d, lim, r.get("exit", r["status"])))
         else:
             run.violation(rep)
+    # ---- 4b. configurations: the limit set with with_recursion_limit holds whatever the order of the builder calls
+    bj = [(t, d, lim, deep) for t in ts if t["kind"] == "nest" and t["id"] in ("parens", "subquery_expr", "case", "func_args", "derived_table")
+          for d in t["dialects"][:(3 if thorough else 1)] for lim in (7, 60) for deep in (30, 150)]
+    bres = pmap(lambda j: child(bindir, ["builders", j[0]["id"], j[3], j[1], str(j[2]), "main"], timeout=120), bj)
+    bstat = {}
+    for (t, d, lim, deep), r in zip(bj, bres):
+        bstat[r["status"]] = bstat.get(r["status"], 0) + 1
+        if r["status"] not in ("ok", "skip", "tokenizer_error"):
+            run.violation({"template": t["id"], "mode": "builders", "dialect": d, "limit": str(lim), "depth": deep, "observed": r,
+                           "input": {"sql_shape": "%s nested %d deep" % (t["id"], deep), "builder_order": r.get("order")},
+                           "what": "the configured recursion limit (or options) does not survive the order of builder calls: the limit that bounds nesting is not the one the caller set",
+                           "expected": "every order of with_recursion_limit / with_options / try_with_sql / with_tokens yields a parser with remaining depth = the configured limit and the same outcome"})
+    run.add_eval(12 * len(bj), 12 * sum(1 for r in bres if r["status"] == "ok"))
+    run.notes["builder_orders"] = {"children": len(bj), "orders_per_child": 12, "outcomes": bstat}
     run.add_eval(len(sj), sum(1 for r in sres if r["status"] == "ok"))
     run.notes["siblings_reuse"] = {"children": len(sj), "siblings_per_input": m, "outcomes": sstat}
     run.sample({"sibling": sj[0][1]["sibling_example"], "result": sres[0]})
@@ -566,6 +580,10 @@ def replay(path):
         if r.get("mode") == "sibling":
             L = DEFAULT_L if r["limit"] == "default" else int(r["limit"])
             out = child(bindir, ["sibling", r["template"], L // 2, r["siblings"], r["dialect"], r["limit"], "thread"], timeout=300)
+        elif r.get("mode") == "builders":
+            out = child(bindir, ["builders", r["template"], r["depth"], r["dialect"], r["limit"], "main"], timeout=120)
+            print("implementation now:", json.dumps(out))
+            return 0 if out["status"] == "ok" else 1
         elif r.get("mode") == "reuse":
             L = int(r["limit"])
             out = child(bindir, ["reuse", r["template"], 3 * L + 1, L // 2, r["dialect"], r["limit"], "thread"], timeout=300)
